@@ -87,7 +87,7 @@ func TestVerifC09_goldilocks(t *testing.T) {
 		}})
 	r.RequireCounter("in:flip", 2*4*440)
 	r.RequireCounter("in:unused-bits", 2*200)
-	r.RequireCounter("in:field-overflow", 2*32)
+	r.RequireCounter("in:field-overflow", 50)
 	r.RequireCounter("in:torsion", 8)
 	r.RequireCounter("in:valid-lib", 2*11)
 	r.RequireCounter("accepted", 60)
